@@ -73,6 +73,7 @@ type zzCoordRpc struct {
 	fails  map[string]bool
 	become []*proto.BecomeLeaderRequest
 	leader string
+	statuses map[string]*proto.GetStatusResponse // nil: GetStatus answers with an empty status
 }
 
 func (r *zzCoordRpc) PushShardAssignments(context.Context, model.Server) (proto.OxiaCoordination_PushShardAssignmentsClient, error) {
@@ -98,7 +99,13 @@ func (r *zzCoordRpc) BecomeLeader(_ context.Context, node model.Server, req *pro
 func (r *zzCoordRpc) AddFollower(context.Context, model.Server, *proto.AddFollowerRequest) (*proto.AddFollowerResponse, error) {
 	return &proto.AddFollowerResponse{}, nil
 }
-func (r *zzCoordRpc) GetStatus(context.Context, model.Server, *proto.GetStatusRequest) (*proto.GetStatusResponse, error) {
+func (r *zzCoordRpc) GetStatus(_ context.Context, node model.Server, _ *proto.GetStatusRequest) (*proto.GetStatusResponse, error) {
+	if r.statuses != nil {
+		if r.fails[node.Internal] {
+			return nil, errors.New("zz: node unreachable")
+		}
+		return r.statuses[node.Internal], nil
+	}
 	return &proto.GetStatusResponse{}, nil
 }
 func (r *zzCoordRpc) DeleteShard(_ context.Context, node model.Server, req *proto.DeleteShardRequest) (*proto.DeleteShardResponse, error) {
